@@ -185,7 +185,7 @@ def oracle_pair(res, case, t1, t2, s1, s2, kw1, kw2, out):
         # flatten under the merged namespace
         kw['namespace'] = comp.namespace
         got = attempt(lambda: optree.tree_structure(big, **kw))
-        if got[0] == 0 and got[1] != comp and not case[1][4] and kw1['namespace'] == comp.namespace and kw2['namespace'] == comp.namespace and kw1.get('is_leaf') is None and kw2.get('is_leaf') is None \
+        if got[0] == 0 and got[1] != comp and case[1][3] == case[3][3] and not case[1][4] and kw1['namespace'] == comp.namespace and kw2['namespace'] == comp.namespace and kw1.get('is_leaf') is None and kw2.get('is_leaf') is None \
                 and s1.namespace in ('', comp.namespace) and s2.namespace in ('', comp.namespace):
             res.fail('compose differs from the structure of the composed tree', case, f'{comp} vs {got[1]}')
         tr = out[12]
